@@ -24,7 +24,7 @@ LEVEL_TEXT = (
     " written in both branch regions); the sink set is exported signals + their constraint partners + everything read by"
     " declarations, returns, asserts and conditions (all variable classes); reads and writes of every node kind are recorded in"
     " the class of the variable's type and every child's uses are merged; a claim is issued exactly on `not read` / `taints no"
-    " sink`; SSA prerequisites shared with C14."
+    " sink`; SSA prerequisites shared with C14; the taint pass, the taint closure and the side-effect pass are evaluated on table worlds (every statement kind; each ingredient of the sink set decisive for one variable)."
 )
 NOT_DECIDED = "that branch regions (dominance-frontier intervals) and the taint closure are computed correctly for every program shape."
 TRUSTED = ["syn parser", "path-condition extractor"]
